@@ -205,7 +205,10 @@ def run_layer(task: Tuple, col: common.Collector) -> None:
                 continue
             k, e = codecrun.ref_encode(ll.ref, rq, assigns[0] if assigns else {}, None)
             req_pdu = e.pdu if k == "ok" else bytes([0x22, 0x01, 0x02, 0x03])
-            sub = assigns[:: max(1, len(assigns) // (8 if tier == "quick" else 40))]
+            if mode == "grid":  # (same parameters as the request)
+                sub = assigns[:: max(1, len(assigns) // (8 if tier == "quick" else 40))]
+            else:
+                sub = codeccompose.assignments(pr, model, r, n=4 if tier == "quick" else 12)
             for n, vals in enumerate(sub):
                 judge_case(col, ll, pr, pobj, vals, req_pdu, digests,
                            f"{model['name']}/{pr['name']}/{n}", sig + "/response",
